@@ -308,3 +308,27 @@ for _u in UNITS:
         _u.setdefault('quick_props', [])
         if 'C11' not in _u['quick_props']:
             _u['quick_props'] = _u['quick_props'] + ['C11']
+
+# ------------------------------------------------------------------ mpf_set_d: exact for every finite double (two limbs always fit: prec + 1 >= 2), on top of the proved __gmp_extract_double
+_sd = dict(
+    name='mpf_set_d', props=['C13', 'C11', 'C04', 'C15'], quick_props=['C11'], source='mpf/set_d.c', extra_sources=['extract-dbl.c'], contracts=CT2,
+    contract_text='''void __gmpf_set_d (mpf_ptr r, double d)
+__CPROVER_requires (V_WFF (r) && !__CPROVER_isnand (d) && !__CPROVER_isinfd (d) && V_GHOSTS_OK)
+__CPROVER_assigns (r->_mp_size, r->_mp_exp, __CPROVER_object_whole (V_PTR (r)))
+__CPROVER_ensures (V_WFF_AT (r, gk) && V_PTR (r) == __CPROVER_old (V_PTR (r)) && V_PREC (r) == __CPROVER_old (V_PREC (r)));
+''', enforce=['__gmpf_set_d'], unwind=66,
+    assumptions=['d finite (NaN and infinities raise the invalid-operation trap: not modelled)', '__gmp_extract_double is taken with its real body (unwound completely); its own unit proves that its output denotes d exactly'],
+    harness='''void h_mpf_set_d (void) {
+%s  mpf_ptr r = &R;
+  double d; __CPROVER_assume (!__CPROVER_isnand (d) && !__CPROVER_isinfd (d));
+  gk = nondet_long (); gj = 0; gh = 0; __CPROVER_assume (0 <= gk && gk < V_ZMAX && V_WFF (r));
+  mp_limb_t T[2]; double ad = d < 0 ? -d : d;
+  int e = __gmp_extract_double (T, ad);
+  __gmpf_set_d (r, d);
+  if (d == 0)
+    __CPROVER_assert (V_SIZ (r) == 0 && V_EXP (r) == 0, "[C13][C11] mpf_set_d: zero");
+  else
+    __CPROVER_assert (V_SIZ (r) == (d < 0 ? -2 : 2) && V_EXP (r) == e && V_PTR (r)[0] == T[0] && V_PTR (r)[1] == T[1], "[C13][C11] mpf_set_d: sign, limb exponent and both significand limbs of d: exact for every finite double");
+}''' % mpf_obj('R'), timeout=600,
+    selftest=[('__gmpf_set_d', r'negative \? -\(\(53 \+ \(64 - 0\) - 1\) / \(64 - 0\) \+ 1\)', 'negative ? ((53 + (64 - 0) - 1) / (64 - 0) + 1)')])
+UNITS.append(_sd)
